@@ -88,7 +88,9 @@ class TransitionDipoleMoment(SelfAdjointOperator, BasisManaged):
         """Returns a component of the transition dipole moment operator
         
         """
-        return SelfAdjointOperator(dim=self.dim, data=self.data[:,:,n])
+        # (a copy: the returned object is basis managed on its own)
+        return SelfAdjointOperator(dim=self.dim,
+                                   data=numpy.array(self.data[:,:,n]))
     
     def get_dipole_length_operator(self):
         """Returns operator composed of the dipole strengths
